@@ -102,6 +102,7 @@ func c06Gen(r *Rand, tier string, scale int, emit func(Fields)) {
 				c := c06Cycle(e, r)
 				c.welcome, c.hs = w == 1, hs
 				c.relFirst = hs == 1 && r.Bool()
+				c.hlock = hs == 1 && !c.relFirst && r.Bool()
 				c.refA, c.refN, c.refD = r.Intn(2), r.Intn(2), r.Intn(2)
 				sc.cycles = []lcCycle{c}
 				add(sc)
